@@ -16,6 +16,32 @@ CLAIMED = {
     ),
 }
 
+CLAIMED.update({
+    'C26': (
+        'symbolic execution (CrossHair/z3) of RpcNode.request over symbolic response-class sequences and status codes',
+        'Bounded symbolic model checking of the retry loop: the class of each of up to 7 responses and the status code inside '
+        'the class are solver variables; number of requests, every sleep delay and the returned/raised outcome are compared with '
+        'the retry rule of the property on every path.',
+        'requests.request/sleep are stubs; 9 response classes; log formatting (json.dumps/pformat) stubbed to constants.',
+        'DESIGN.md C26',
+    ),
+    'C27': (
+        'symbolic execution (CrossHair/z3) of RpcError.from_errors over solver-chosen identifier components',
+        'Bounded symbolic model checking: identifier components are chosen by the solver from all tokens of the registered handler '
+        'keys plus unregistered ones, for five identifier forms and 1..3 errors; the class raised is compared with the priority '
+        'order of the property.',
+        'Only the spelling of unregistered tokens is concretised (the code tests them for equality with registered keys only).',
+        'DESIGN.md C27',
+    ),
+    'C29': (
+        'symbolic execution (CrossHair/z3) of find_state_changes / find_state_change over symbolic ranges and change points',
+        'Bounded symbolic model checking: range start, range length, change points (and the step, per obligation) are solver '
+        'variables; the value history is monotone by construction; result lists are compared with the exact list of change points.',
+        'Range length <= 24/12 (quick) and <= 120/40/16 (thorough) for 1/2/3 change points; get() is a model of a value that never returns.',
+        'DESIGN.md C29',
+    ),
+})
+
 NOT_APPLICABLE = {
     'C18': 'Parser is a PLY regex lexer + LALR tables + json; every input is concrete before the code under test runs, '
            'so a solver has nothing to decide (CrossHair regex model also unsound here). See DESIGN.md section 6.',
